@@ -193,6 +193,13 @@ def h_formatters(sx):
                     if el["type"] == "background":
                         sx.check("status" not in el or el["status"] is None, "C15.json-status-attached-to-its-own-element",
                                  detail=lambda m, el=el: dict(det(m), element="background@%s" % el["location"], status=el.get("status")))
+                        # its steps are the background's OWN steps (inherited ones belong to the feature's background element)
+                        bgs = [b for b in [f.background] + [r.background for r in f.rules] if b is not None]
+                        mine = [b for b in bgs if str(el.get("location", "")).endswith(":%d" % b.line)]
+                        if mine:
+                            sx.check([s_["name"] for s_ in el["steps"]] == [s_.name for s_ in mine[0].steps], "C15.json-background-steps==model",
+                                     detail=lambda m, el=el, mine=mine: dict(det(m), element="background@%s" % el["location"],
+                                                                            json=[s_["name"] for s_ in el["steps"]], model=[s_.name for s_ in mine[0].steps]))
                 scs = [el for el in els if el["type"] == "scenario"]
                 shown_sc = [s for s, _ in processed if any(s == e.obj.name and e.eid.startswith(self_id(w, f)) for e in w.scenario_elems() if e.obj is not None)]
                 sx.check([el["name"] for el in scs] == shown_sc, "C15.json-scenarios==shown-scenarios",
